@@ -227,6 +227,37 @@ def _selection_comps(meth):
     return out
 
 
+def _mentions_include_exclude(klass, meth, depth=0):
+    '''Are both `include` and `exclude` (or names derived from them) read
+    by a test of the method or of a helper they are handed to?'''
+    from . import verdict as V
+    hits = set()
+    for par in ('include', 'exclude'):
+        if par not in meth.params:
+            return False
+        derived = V.derived_names(meth.node, {par})
+        for node in ast.walk(meth.node):
+            if isinstance(node, (ast.If, ast.IfExp, ast.comprehension)):
+                tests = [node.test] if not isinstance(
+                    node, ast.comprehension) else node.ifs
+                if any(V.mentions(t, derived) for t in tests):
+                    hits.add(par)
+            if isinstance(node, ast.Call) and depth < 2 and isinstance(
+                    node.func, ast.Attribute) and dotted(
+                        node.func.value) == 'self' and \
+                    node.func.attr in klass.methods:
+                helper = klass.methods[node.func.attr]
+                hpars = [p for p in helper.params if p != 'self']
+                for pos, arg in enumerate(node.args):
+                    if V.mentions(arg, derived) and pos < len(hpars):
+                        hder = V.derived_names(helper.node, {hpars[pos]})
+                        if any(isinstance(t, (ast.If, ast.IfExp)) and
+                               V.mentions(t.test, hder)
+                               for t in ast.walk(helper.node)):
+                            hits.add(par)
+    return hits == {'include', 'exclude'}
+
+
 def check_select_shape(ctx):
     program = ctx.program
     klass = _browser(program)
@@ -300,6 +331,14 @@ def check_select_shape(ctx):
         # .intersection(item); evaluated over the four cells
         # {has every required key} x {has a forbidden key}
         found = _include_exclude_filters(meth, assigns)
+        if not found and _mentions_include_exclude(klass, meth):
+            # the parameters reach SOME test (a loop with `continue`, a
+            # helper): the filter is there, in a form this rule cannot
+            # evaluate
+            ctx.undecided('SELECT-SHAPE', meth, f'{mname}: include / exclude '
+                          f'are applied in a form that is not a filtered '
+                          f'comprehension', at=meth.where())
+            continue
         if not found:
             ctx.violated('SELECT-SHAPE', meth, f'{mname}: include / exclude '
                          f'are never applied to the candidates',
@@ -479,6 +518,16 @@ def check_select_one(ctx):
         if isinstance(node, ast.Assign) and node.value in comps and \
                 isinstance(node.targets[0], ast.Name):
             var = node.targets[0].id
+    if var is None:
+        # however the list is computed (a helper, a loop): it is the name
+        # whose single element is returned
+        returned = {txt(n.value.value) for n in walk_local(meth.node)
+                    if isinstance(n, ast.Return) and isinstance(
+                        n.value, ast.Subscript) and isinstance(
+                            n.value.value, ast.Name) and
+                    txt(n.value.slice) == '0'}
+        if len(returned) == 1:
+            var = returned.pop()
     if var is None:
         ctx.undecided('SELECT-ONE', meth, 'selected list not bound to a '
                       'name', at=meth.where())
